@@ -34,6 +34,19 @@ def handle (case obs : List String) : String × String :=
       let model := render (tryParse bytes)
       let expected := render (Spec.Timeout.denote bytes)
       (model, verdict [("parse-is-denotation", String.intercalate " " obs == expected)])
+  | ["e2e", c, s, e, l] =>
+    match optNat? c, optNat? s, optNat? e, nat? l with
+    | some c, some s, some e, some l =>
+      -- client stack: min(caller header, Endpoint::timeout); server stack: min(caller header,
+      -- Server::timeout); the call is cut when either fires before the handler answers
+      let cut := fun (x : Option Nat) => match x with | some t => decide (t < l) | none => false
+      let clientCut := run l (effective c e) == .timeout
+      let serverCut := run l (effective c s) == .timeout
+      let tmo := "timeout 1 " ++ hex (Ascii.ofString "Timeout expired")
+      let model := if clientCut || serverCut then tmo else "inner"
+      let expected := if cut c || cut s || cut e then tmo else "inner"
+      (model, verdict [("cutoff-at-shortest-deadline-end-to-end", String.intercalate " " obs == expected)])
+    | _, _, _, _ => bad
   | ["run", c, s, l] =>
     match optNat? c, optNat? s, nat? l with
     | some c, some s, some l =>
